@@ -199,8 +199,14 @@ def worker(pid: str, tier: str, seed: int, shard: int, nshards: int, outpath: st
     # stage 3: generated search
     n = mod.budget(tier) // nshards
     run_stage("generated", mod.strategy(tier), n, derive_seed(seed, pid, shard, "generated"))
-    if hasattr(mod, "shard_extra"):
-        stats.extra.update(mod.shard_extra(tier, seed, shard, nshards))
+    if hasattr(mod, "shard_extra") and not stats.truncated:
+        res = mod.shard_extra(tier, seed, shard, nshards)
+        stats.failures.extend(res.pop("failures", []))
+        extra_evals = int(res.pop("evaluations", 0))
+        stats.evaluations += extra_evals
+        stats.stage_counts["extra"] += extra_evals
+        for k, v in res.items():
+            stats.extra[k] = stats.extra.get(k, 0) + v if isinstance(v, (int, float)) else v
     with open(outpath, "w", encoding="utf8") as fh:
         json.dump(stats.to_json(), fh)
 
